@@ -7,7 +7,6 @@ mod c04;
 mod c05;
 mod c06;
 mod fx;
-mod probe;
 
 fn main() {
     let args = kvcore::parse_args();
@@ -16,7 +15,6 @@ fn main() {
         "C05" => c05::run(args),
         "C06" => c06::run(args),
         "C05CHILD" => c05::child(args),
-        "probe" => probe::run(args),
         p => {
             println!("INCONCLUSIVE property={p} reason=faultsim does not serve this property");
             std::process::exit(2);
